@@ -336,7 +336,16 @@ pub fn sample_case(rng: &mut Rng, id: u64, profile: &str, unsafe_sel: &str) -> C
         _ => rng.below(128) as u8,
     };
     let rate_bits = match rng.below(8) {
-        0 => rng.next(), // arbitrary bit pattern (clamped by the builder; NaN stays NaN)
+        // special and arbitrary bit patterns (the builder clamps to [0,1]; NaN stays NaN)
+        0 => match rng.below(8) {
+            0 | 1 => 0x7ff8_0000_0000_0000,       // NaN
+            2 => 0xfff8_0000_0000_0001,           // another NaN (sign bit, payload)
+            3 => 0x8000_0000_0000_0000,           // -0.0
+            4 => f64::INFINITY.to_bits(),
+            5 => (-1.5f64).to_bits(),
+            6 => 0x0000_0000_0000_0001,           // smallest subnormal
+            _ => rng.next(),
+        },
         k => RATES[(k as usize - 1) % RATES.len()].to_bits(),
     };
     let mode = if rng.coin() {
@@ -360,7 +369,7 @@ pub fn sample_case(rng: &mut Rng, id: u64, profile: &str, unsafe_sel: &str) -> C
         }
         Mode::Arb(b)
     };
-    Case {
+    let mut c = Case {
         id,
         proto,
         unsafe_m,
@@ -376,7 +385,21 @@ pub fn sample_case(rng: &mut Rng, id: u64, profile: &str, unsafe_sel: &str) -> C
         // never an unsafe-mode TypeConfusion on a "safe" generator: that *is* an unsafe mutation
         mu: if rng.below(8) == 0 && (mask & 0x40) == 0 { !unsafe_m } else { unsafe_m },
         muts: None,
+    };
+    if profile == "c15" {
+        // the rate extremes with every single value mutator and every ordered pair of them, mutator objects built
+        // with either unsafe_mode, on safe and unsafe generators, medium-sized programs (so that every value kind,
+        // empty payloads and memo fetches occur)
+        let k = (id / 2 % 6) as usize;
+        let second = (id / 12 % 7) as usize;
+        c.muts = Some(if second == 6 || second == k { vec![k] } else { vec![k, second] });
+        c.rate_bits = if id % 2 == 0 { 1.0f64.to_bits() } else { 0.0f64.to_bits() };
+        c.mu = rng.coin();
+        c.min = 80;
+        c.max = 160;
+        c.warm = 0;
     }
+    c
 }
 
 // ---------------------------------------------------------------- digests
@@ -480,6 +503,10 @@ fn trace_line_inner(c: &Case) -> String {
     let mut nsteps = 0usize;
     let mut mutated = 0usize;
     let mut rewritten = 0usize;
+    // value-carrying emissions per kind (i, f, s non-empty, s empty, y non-empty, y empty, m) and mutations per kind
+    // (i, f, s, y, m): the generation-level C15 oracle compares them at the rate extremes
+    let mut nv = [0usize; 7];
+    let mut nm = [0usize; 5];
     for r in &recs {
         match r {
             Rec::Target { target: t, pre } => target = format!("{}@{}", t, snap(pre)),
@@ -494,6 +521,19 @@ fn trace_line_inner(c: &Case) -> String {
                 };
                 let _ = write!(steps, "{:02x}/{}/{}", op, a, snap(pre));
                 nsteps += 1;
+                let alen = arg.as_ref().map(|a| a.len()).unwrap_or(0);
+                let empty_at = |min: usize| if alen <= min { 1 } else { 0 };
+                match *op {
+                    0x49 | 0x4c | 0x4a | 0x4b | 0x4d | 0x8a | 0x8b => nv[0] += 1,
+                    0x46 | 0x47 => nv[1] += 1,
+                    // the argument handed to process_stack_ops: STRING `'..'\n`, UNICODE `..\n`, the binary ones the payload
+                    0x53 => nv[2 + empty_at(3)] += 1,
+                    0x56 => nv[2 + empty_at(1)] += 1,
+                    0x8c | 0x58 | 0x8d => nv[2 + empty_at(0)] += 1,
+                    0x54 | 0x42 | 0x55 | 0x43 | 0x8e | 0x96 => nv[4 + empty_at(0)] += 1,
+                    0x67 | 0x68 | 0x6a => nv[6] += 1,
+                    _ => {}
+                }
             }
             Rec::BodyEnd { pre } => bodyend = format!("{}@{}", nsteps, snap(pre)),
             Rec::Final { post } => {
@@ -504,7 +544,17 @@ fn trace_line_inner(c: &Case) -> String {
                     memo_full(post)
                 )
             }
-            Rec::Mutated { .. } => mutated += 1,
+            Rec::Mutated { kind } => {
+                mutated += 1;
+                match kind {
+                    'i' => nm[0] += 1,
+                    'f' => nm[1] += 1,
+                    's' => nm[2] += 1,
+                    'y' => nm[3] += 1,
+                    'm' => nm[4] += 1,
+                    _ => {}
+                }
+            }
             Rec::Rewritten => rewritten += 1,
         }
     }
@@ -516,12 +566,14 @@ fn trace_line_inner(c: &Case) -> String {
         Err(e) => e,
     };
     format!(
-        "trace {} target={} bodyend={} mutated={} rewritten={} final={} steps={} result={}",
+        "trace {} target={} bodyend={} mutated={} rewritten={} nv={} nm={} final={} steps={} result={}",
         c.line(),
         target,
         bodyend,
         mutated,
         rewritten,
+        nv.iter().map(|x| x.to_string()).collect::<Vec<_>>().join("/"),
+        nm.iter().map(|x| x.to_string()).collect::<Vec<_>>().join("/"),
         fin,
         steps,
         result
